@@ -46,7 +46,12 @@ theorem scr_bufferOp (cfg : Cfg) (s : AState) (op : Op) : scr (bufferOp cfg s op
 theorem scr_doWrap (s : AState) : scr (doWrap s).1 = scr s := by
   unfold doWrap scr
   split <;> (try simp)
-  split <;> simp
+  · split <;> simp
+  · split
+    · split
+      · split <;> simp
+      · simp
+    · simp
 
 theorem scr_inputOp (cfg : Cfg) (s : AState) (fuel : Nat) : scr (inputOp cfg s fuel) = scr s := by
   induction fuel generalizing s with
